@@ -184,9 +184,12 @@ class PermuteGround(_Hash):
         _stub_world(w)
         w.environ["PYSNARK_BACKEND"] = self._cfgparams if hasattr(self, "_cfgparams") else "zkinterface"
 
+    probe = True
+
     def setup(self, c, cfg):
         # the ghost backend runs with the prime of the configuration's field
         apply_mode(c, "plain")
+        c.w.use_contracts = False                    # a ground run through the real code only: nothing is summarised
         p = FIELD_OF[cfg["params"]]
         c.g.p = p
         cur().p = p
@@ -202,12 +205,12 @@ class PermuteGround(_Hash):
         if cfg.get("warm") == "g0":
             rt = c.rt
             before = (rt.guard, rt._ignore_errors, rt.LinComb.ONE)
-            apply_mode(c, "g0")
+            G = rt.PrivVal(0)                        # a concrete dead guard (ground instance: nothing symbolic)
+            rt.guard, rt._ignore_errors, rt.LinComb.ONE = G, True, G
             try:
                 ph.permute([rt.PrivVal(v + 1) for v in vals])
             finally:
                 rt.guard, rt._ignore_errors, rt.LinComb.ONE = before
-                c.mode = "plain"
         return ph.permute, ([c.rt.PrivVal(v) for v in vals],), {}
 
     def post(self, c, r, state):
